@@ -8,7 +8,7 @@
    (CTrace.v: they are the canonical ones) takes exactly the steps of gtb cpick -- whose path costs the value of the
    start cell (TracebackC.v). *)
 From Coq Require Import ZArith Bool Lia List.
-From DV Require Import Prelude Cost Grid Dtw DtwSpec DtwProps Traceback TracebackC CWps CFill CTrace.
+From DV Require Import Prelude Cost Grid Dtw DtwSpec DtwProps Traceback TracebackC CWps CFill CExpand CFillSim CTrace.
 From DVGen Require Import Gen_cwps Gen_ctrace.
 Import ListNotations.
 Open Scope Z_scope.
@@ -30,8 +30,10 @@ Local Notation ri2z := (cw_ri2 l1 l2 window0).
 Local Notation ri3z := (cw_ri3 l1 l2 window0).
 
 (* the compact array holds M through the layout *)
+(* (the border column 0 is kept only in the rows above the left overlap: CFillSim.v) *)
 Hypothesis HW : forall (i : nat) (s : Z), Z.of_nat i <= l1 -> 0 <= s < widthz ->
   0 <= s + shiftz (Z.of_nat i - 1) <= l2 ->
+  (s + shiftz (Z.of_nat i - 1) = 0 -> Z.of_nat i <= ri2z) ->
   W (Z.of_nat i) s = M i (Z.to_nat (s + shiftz (Z.of_nat i - 1))).
 (* finite interior cells are band cells *)
 Hypothesis Hband : forall i j : nat, Z.of_nat (S i) <= l1 -> Z.of_nat (S j) <= l2 -> M (S i) (S j) <> Inf ->
@@ -92,20 +94,27 @@ Proof.
   assert (Hdu : tl_up t = tl_diag t + 1) by (unfold t; destruct (active rip); reflexivity).
   assert (Hlf : tl_left t = -1) by (unfold t; destruct (active rip); reflexivity).
   (* the three reads are the three matrix cells *)
+  assert (Hrow0 : Z.of_nat j' = 0 -> Z.of_nat i' < ri2z).
+  { intros E0. apply (band_starts_at_zero l1 l2 window0 H1 H2 Hw (Z.of_nat i')); [unfold rip in Hrip; lia|].
+    unfold blo. unfold band_lo in *. lia. }
   assert (Ra : W (rip - 1) (wpsi + tl_diag t) = M i' j').
   { replace (rip - 1) with (Z.of_nat i') by (unfold rip; lia).
-    rewrite HW; [f_equal| lia | lia |].
+    rewrite HW; [f_equal| lia | lia | |].
     - replace (Z.of_nat i' - 1) with (rip - 2) by (unfold rip; lia). rewrite Ed. unfold cip. lia.
-    - replace (Z.of_nat i' - 1) with (rip - 2) by (unfold rip; lia). rewrite Ed. unfold cip. lia. }
+    - replace (Z.of_nat i' - 1) with (rip - 2) by (unfold rip; lia). rewrite Ed. unfold cip. lia.
+    - replace (Z.of_nat i' - 1) with (rip - 2) by (unfold rip; lia). rewrite Ed. unfold cip. intros E0.
+      assert (Z.of_nat j' = 0) by lia. specialize (Hrow0 H). lia. }
   assert (Ru : W (rip - 1) (wpsi + tl_up t) = M i' (S j')).
   { replace (rip - 1) with (Z.of_nat i') by (unfold rip; lia).
-    rewrite HW; [f_equal| lia | lia |].
+    rewrite HW; [f_equal| lia | lia | |].
+    - replace (Z.of_nat i' - 1) with (rip - 2) by (unfold rip; lia). rewrite Eu. unfold cip. lia.
     - replace (Z.of_nat i' - 1) with (rip - 2) by (unfold rip; lia). rewrite Eu. unfold cip. lia.
     - replace (Z.of_nat i' - 1) with (rip - 2) by (unfold rip; lia). rewrite Eu. unfold cip. lia. }
   assert (Rl : W rip (wpsi + tl_left t) = M (S i') j').
-  { unfold rip at 1. rewrite HW; [f_equal| unfold rip in Hrip; lia | lia |].
+  { unfold rip at 1. rewrite HW; [f_equal| unfold rip in Hrip; lia | lia | |].
     - fold rip. rewrite El. unfold cip. lia.
-    - fold rip. rewrite El. unfold cip. lia. }
+    - fold rip. rewrite El. unfold cip. lia.
+    - fold rip. rewrite El. unfold cip. intros E0. assert (Z.of_nat j' = 0) by lia. specialize (Hrow0 H). unfold rip. lia. }
   rewrite Ra, Ru, Rl.
   pose proof (cpick_admissible d pen p1b p2b i' j') as Hadm.
   destruct (cleb (M i' j') (cadd (M (S i') j') (Fin pen)) && cleb (M i' j') (cadd (M i' (S j')) (Fin pen))) eqn:E1.
